@@ -772,6 +772,7 @@ def probeModel (names : List Name) (kind : Nat) (before : List Name) :
           | _ => 3)
 
 def probeOk : Bool :=
+  CpModel.Gen.C02.popargsRejectsUnknownKeyword &&
   CpModel.Gen.C02.popargsProbe.all fun row =>
     row.2.2.all fun c =>
       probeModel (row.1.map decName) row.2.1 (c.1.map decName) ==
@@ -781,7 +782,8 @@ def probeOk : Bool :=
 /-- **The live `cherrypy.popargs` is the model's `popargsDisp`, call after call.**  The table is regenerated on
     every run by calling each decorated object several times in a row (a longer list first): every call — list
     after, `request.params`, handler kwargs, returned object — is what the model computes from *that call's*
-    list alone, so nothing bound by one call survives into the next. -/
+    list alone, so nothing bound by one call survives into the next.  (Also: a keyword other than `handler=` is
+    rejected.) -/
 theorem C02_popargs_probe : probeOk = true := by decide +kernel
 
 example : CpModel.Gen.C02.popargsProbe.length = 12 ∧
